@@ -584,7 +584,7 @@ def oracle_array(c, r):
 
 def update_case(rng):
     return {"kind": rng.choice(DET_KINDS), "scale": rng.choice([0.5, 1.0, None]), "m": rng.randint(1, 3), "seed": rng.randint(0, 10**6),
-            "ov": rng.choice([0, 1, 1, 2, 5, "inside", "inside"]), "index": rng.choice(["range", "offset", "datetime"]), "p": rng.randint(1, 2)}
+            "ov": rng.choice([0, 1, 1, 2, 5, "inside", "inside", "scattered", "scattered"]), "index": rng.choice(["range", "offset", "datetime"]), "p": rng.randint(1, 2)}
 
 
 def impl_update(c):
@@ -602,6 +602,10 @@ def impl_update(c):
         old = full
         new = full.iloc[8:20].copy()
         new += 9.0
+    elif c["ov"] == "scattered":  # corrections of a few scattered remembered rows together with the new rows
+        old = full.iloc[:n]
+        new = full.iloc[[n - 7, n - 4, n - 2] + list(range(n, n + k))].copy()
+        new.iloc[:3] += 0.5
     else:
         old = full.iloc[:n]
         new = full.iloc[n - c["ov"]:].copy()
